@@ -60,7 +60,7 @@ CORE = [
 
 def cases_for(tier, rng):
     cases = [8 * t + m for t, ms in CORE for m in ms]
-    extra = 16 if tier == "quick" else 40
+    extra = 16 if tier == "quick" else 24
     for _ in range(extra):
         t = rng.randrange(NTABLES)
         m = 7 if rng.random() < 0.6 else rng.randrange(8)
@@ -109,7 +109,7 @@ INVARIANT OnlySpellings
     ev["transitions"] += r.generated
     ev["machine_action_coverage"] = r.coverage
     ev["machine_actions_not_exercised"] = sorted(a for a, c in r.coverage.items() if c == 0)
-    deep_tabs, deep_len = ([CORE[2][0]], 4) if tier == "quick" else ([c[0] for c in CORE[2:5]], 5)
+    deep_tabs, deep_len = ([CORE[2][0]], 4) if tier == "quick" else ([c[0] for c in CORE[2:4]], 5)
     cfg = write_cfg(os.path.join(wd, "mc_machine_deep.cfg"), f"""SPECIFICATION Spec
 CONSTANTS
   TableIds = {set_lit(deep_tabs)}
@@ -214,7 +214,7 @@ def enumeration(tier, wd, rep, ev, rng):
 # --------------------------------------------------------------------------
 def random_validation(tier, wd, rep, ev):
     """P4b: random longer vectors recorded from the real parser, validated by TLC."""
-    n, maxlen = (12000, 8) if tier == "quick" else (300000, 10)
+    n, maxlen = (12000, 8) if tier == "quick" else (200000, 10)
     trace = os.path.join(wd, "random.ndjson")
     _, _, err = vlib.run_harness(PKG, ["random", "--n", n, "--maxlen", maxlen, "--out", trace])
     try:
